@@ -242,6 +242,9 @@ class ProgramRunner:
     if entry is not None:
       self.controller.plan.append(dict(entry))
     self.controller.es_plan.clear()
+    self.controller.factory_faults.clear()
+    if call.get('_factory_fault') is not None:
+      self.controller.factory_faults.append(dict(call['_factory_fault']))
     if call.get('_es_entry') is not None:
       self.controller.es_plan.append(dict(call['_es_entry']))
     before = S.snapshot(self.servicer, self.owners)
@@ -252,6 +255,7 @@ class ProgramRunner:
     self.last_response = oresp
     self.controller.plan.clear()
     self.controller.es_plan.clear()
+    self.controller.factory_faults.clear()
     allowed, d = self.model.step(call, ocls, oresp)
     for x in d:
       disc.append({'kind': 'model', 'what': x})
